@@ -303,6 +303,12 @@ def gen_attr(shape, have_mask, only_leaves, form, lo, hi, draws, elems=None) -> 
         dom = Domain([Range(lo / 4, hi / 4 + 0.25)], None)
     elif form == 'mixed':
         dom = Domain([Range(lo, hi)], elements)
+    elif form == 'intfloat':      # an integer range and a disjoint range with float bounds in one domain, either order
+        dom = Domain([Range(lo, hi), Range(hi + 3.25, hi + 5.5)], None)
+    elif form == 'floatint':
+        dom = Domain([Range(hi + 3.25, hi + 5.5), Range(lo, hi)], None)
+    elif form == 'all':
+        dom = Domain([Range(hi + 3.25, hi + 5.5), Range(lo, hi)], elements)
     elif form == 'empty':
         dom = Domain(None, None)
     stub = RandomStub(draws)
@@ -358,6 +364,10 @@ def in_domain(v, form, lo, hi, elements) -> bool:
         return isinstance(v, float) and lo / 4 <= v <= hi / 4 + 0.25
     if form == 'mixed':
         return in_elems(v) or in_int(v, lo, hi)
+    if form in ('intfloat', 'floatint', 'all'):
+        if in_int(v, lo, hi) or (isinstance(v, float) and hi + 3.25 <= v <= hi + 5.5):
+            return True
+        return form == 'all' and in_elems(v)
     if form == 'empty':
         return v is None
     return False
@@ -402,7 +412,7 @@ def batch_gen_native(max_n, seed, count):
         n = R.n_features(shape)
         lo = rnd.randint(-5, 5)
         args = [shape, [rnd.random() < 0.3 for _ in range(n)], rnd.random() < 0.5,
-                rnd.choice(['elements', 'int', 'int2', 'float', 'mixed', 'empty']), lo, lo + rnd.randint(0, 6),
+                rnd.choice(['elements', 'int', 'int2', 'float', 'mixed', 'empty', 'intfloat', 'floatint', 'all']), lo, lo + rnd.randint(0, 6),
                 [rnd.randint(0, 50) for _ in range(5)]]
         if rnd.random() < 0.5:
             args.append(rnd.choice([[0], [False, True], ['', 'a'], [0.0, 1.5], [0, 1, 2], [False], ['x', 0, '', False, 0.0], [None, 0]]))
@@ -482,12 +492,12 @@ def conditions(tier, seed):
                           sample={'models': [R.shape_str(s), R.shape_str(s2)], 'symbolic': 'all cards of both models'}, validate=val))
     # random attribute generation
     gshapes = [(si, s) for si, s in small if R.n_features(s) >= 2]
-    for form in ['elements', 'int', 'int2', 'mixed', 'float', 'empty']:
+    for form in ['elements', 'int', 'int2', 'mixed', 'float', 'empty', 'intfloat', 'floatint', 'all']:
         for (si, s) in (gshapes if tier != 'quick' else gshapes[:3]):
             n = R.n_features(s)
             imp = imp0 + 'SG_%d = %r\n' % (si, s)
             params = 'leaves: bool, ' + ', '.join('h%d: bool' % i for i in range(n)) + ', lo: int, hi: int, d0: int, d1: int, d2: int'
-            pre = ['-9 <= lo <= hi <= 9' if form == 'float' else 'lo <= hi', '0 <= d0 <= 20 and 0 <= d1 <= 20 and 0 <= d2 <= 20']
+            pre = ['-9 <= lo <= hi <= 9' if form in ('float', 'intfloat', 'floatint', 'all') else 'lo <= hi', '0 <= d0 <= 20 and 0 <= d1 <= 20 and 0 <= d2 <= 20']
             conds.append(Cond(name='c19_gen_%s_%d' % (form, si), imports=imp, params=params, pre=pre,
                               body='P.gen_attr(SG_%d, [%s], leaves, %r, lo, hi, [d0, d1, d2])' % (si, ', '.join('h%d' % i for i in range(n)), form),
                               timeout=T, aspect='GenerateRandomAttribute, domain form %s' % form,
